@@ -52,6 +52,7 @@ class Ctx:
             raise MirError("MIR dump failed: " + r.stderr[-800:])
         self.mir = mparse.Mir(out)
         self.enums = parse_enums(os.path.join(self.scratch, "src"))
+        self.structs = parse_structs(os.path.join(self.scratch, "src"))
         self.mir_s = time.time() - t0
 
     def solver(self, name):
@@ -65,6 +66,42 @@ class Ctx:
 
 
 RE_ENUM = re.compile(r"enum\s+(\w+)\s*(?:<[^>{]*>)?\s*\{(.*?)\n\}", re.S)
+
+
+def parse_structs(srcdir):
+    """Field order (and type text) of every braced struct declared in rivia's sources."""
+    structs = {}
+    for p in glob.glob(os.path.join(srcdir, "**", "*.rs"), recursive=True):
+        if os.path.basename(p).startswith("verif_"):
+            continue
+        txt = re.sub(r"//[^\n]*", "", open(p).read())
+        for m in re.finditer(r"\bstruct\s+(\w+)\s*(?:<[^{;]*>)?\s*(?:where[^{]*)?\{", txt):
+            i, depth = m.end(), 1
+            while i < len(txt) and depth:
+                depth += txt[i] == "{"
+                depth -= txt[i] == "}"
+                i += 1
+            body = re.sub(r"#\[[^\]]*\]", "", txt[m.end():i - 1])
+            fields, depth, cur = [], 0, ""
+            for ch in body:
+                if ch in "({[<":
+                    depth += 1
+                elif ch in ")}]>" :
+                    depth -= 1
+                if ch == "," and depth == 0:
+                    fields.append(cur)
+                    cur = ""
+                else:
+                    cur += ch
+            fields.append(cur)
+            fs = []
+            for f in fields:
+                mm = re.match(r"\s*(?:pub(?:\([^)]*\))?\s+)?(\w+)\s*:\s*(.+?)\s*$", f, re.S)
+                if mm:
+                    fs.append((mm.group(1), " ".join(mm.group(2).split())))
+            if fs:
+                structs.setdefault(m.group(1), fs)
+    return structs
 
 
 def parse_enums(srcdir):
